@@ -101,7 +101,13 @@ func FromCbor(data []byte) (Reader, error) {
 
 // FromCborReader is the same as FromCbor, but with an io.Reader.
 func FromCborReader(r io.Reader) (Reader, error) {
-	n, err := ipld.DecodeStreaming(r, dagcbor.Decode)
+	lr := &errLatchReader{r: r}
+	n, err := ipld.DecodeStreaming(lr, dagcbor.Decode)
+	if err == nil {
+		// the decoder drops an error that the reader returned together with
+		// the last bytes it asked for
+		err = lr.err
+	}
 	if err != nil {
 		return nil, err
 	}
@@ -148,6 +154,24 @@ func FromCborReader(r io.Reader) (Reader, error) {
 		}
 	}
 	return ctn, nil
+}
+
+// errLatchReader remembers the first non-EOF error of the underlying reader,
+// and keeps returning it.
+type errLatchReader struct {
+	r   io.Reader
+	err error
+}
+
+func (l *errLatchReader) Read(p []byte) (int, error) {
+	if l.err != nil {
+		return 0, l.err
+	}
+	n, err := l.r.Read(p)
+	if err != nil && err != io.EOF {
+		l.err = err
+	}
+	return n, err
 }
 
 // FromCborBase64 decodes a base64 DAG-CBOR encoded container.
